@@ -466,6 +466,10 @@ def positional_binding(ctx, rid, core):
                     ok = None
                 elif cond_insert:
                     ok = False
+                elif S.contains_head(val, "index") or any(H.kind(x) == "Index" and H.kind(H.strip(x["i"])) == "Struct" and "ops::range" in (H.strip(x["i"])["res"].get("def") or "") for x in H.walk(aa["body"])):
+                    ok = False   # args[idx..]: panics when an optional parameter before the rest was omitted (idx > len)
+                elif S.contains(val, NULL) or S.contains_call(val, "unwrap_or") or S.contains_call(val, "unwrap_or_default"):
+                    ok = False   # the rest parameter is a list on every call, the empty one when nothing remains - never null
                 elif S.contains(val, ("call", "collect", ("call", "skip", ("args",), ("idx",)))) and S.contains_call(val, "insert_list"):
                     ok = True
                 else:
@@ -580,9 +584,9 @@ def run(ctx):
     capture_by_name(ctx, "C04.R2", core)
 
     # ---------------- R6 the exported function carries its captured values
-    ctx.rule("C04.R6", "a function that leaves the process (output / to_string / JSON) carries the values it captured: the inliner substitutes the captured value at every position where the evaluator reads a name (identifier, record shorthand), whatever the name", floor=3)
+    ctx.rule("C04.R6", "a function that leaves the process (output / to_string / JSON) carries the values it captured: the inliner substitutes the captured value at every position where the evaluator reads a name (identifier, record shorthand), whatever the name - and never over a nested function's own parameter, which is removed from the substituted values unconditionally", floor=3)
     from rules import printers as P_
-    P_.R8_binders(_Only(ctx, lambda k_: k_.startswith("substitution")), "C04.R6", core)
+    P_.R8_binders(_Only(ctx, lambda k_: k_.startswith("substitution") or k_.startswith("binder=Expr::Lambda")), "C04.R6", core)
 
     # ---------------- R7 optional and rest parameters stay optional and rest in emitted source
     ctx.rule("C04.R7", "a function that leaves the process keeps its parameter kinds: every printer of a parameter list writes `name`, `name?`, `...name` by kind, so the reloaded function accepts the argument counts the original accepted (optional ones default to null, the rest parameter collects)", floor=4)
